@@ -236,3 +236,61 @@ func VerifC07Sys() {
 	}
 	zz.Reach("end")
 }
+
+// VerifC07Partial: "only arguments that are not nil are parsed and filled": for every message of the accessor's
+// length and every subset of requested arguments, the accessor accepts exactly when the all-arguments call accepts
+// and fills the requested arguments with the same values.
+func VerifC07Partial() {
+	raw := zz.Bytes("m", 3)
+	mask := zz.Choice("mask", 8)
+	var a, b, c, fa, fb, fc uint8
+	var r, fr int16
+	var u, fu uint16
+	pa, pb, pc, pr, pu := &a, &b, &c, &r, &u
+	if mask&1 == 0 {
+		pa = nil
+	}
+	if mask&2 == 0 {
+		pb, pr = nil, nil
+	}
+	if mask&4 == 0 {
+		pc, pu = nil, nil
+	}
+	var full, part bool
+	three := true
+	switch zz.Choice("accessor", 7) {
+	case 0:
+		m := Message(raw)
+		full, part = m.GetNoteOn(&fa, &fb, &fc), m.GetNoteOn(pa, pb, pc)
+	case 1:
+		m := Message(raw)
+		full, part = m.GetNoteOff(&fa, &fb, &fc), m.GetNoteOff(pa, pb, pc)
+	case 2:
+		m := Message(raw)
+		full, part = m.GetPolyAfterTouch(&fa, &fb, &fc), m.GetPolyAfterTouch(pa, pb, pc)
+	case 3:
+		m := Message(raw)
+		full, part = m.GetControlChange(&fa, &fb, &fc), m.GetControlChange(pa, pb, pc)
+	case 4:
+		m := Message(raw[:2])
+		three = false
+		full, part = m.GetProgramChange(&fa, &fb), m.GetProgramChange(pa, pb)
+	case 5:
+		m := Message(raw[:2])
+		three = false
+		full, part = m.GetAfterTouch(&fa, &fb), m.GetAfterTouch(pa, pb)
+	case 6:
+		m := Message(raw)
+		full, part = m.GetPitchBend(&fa, &fr, &fu), m.GetPitchBend(pa, pr, pu)
+		zz.Assert(!full || pr == nil || r == fr, "partial:relative-pitch")
+		zz.Assert(!full || pu == nil || u == fu, "partial:absolute-pitch")
+		b, c = fb, fc
+	}
+	zz.Assert(full == part, "partial:same-acceptance")
+	if full && part {
+		zz.Assert(pa == nil || a == fa, "partial:first-argument")
+		zz.Assert(pb == nil || b == fb, "partial:second-argument")
+		zz.Assert(!three || pc == nil || c == fc, "partial:third-argument")
+	}
+	zz.Reach("end")
+}
